@@ -206,8 +206,12 @@ WriteFrom(kind, set, fdes, le, k, cieOffs, bytes, ents) ==
                                    ents \o (IF cieOffs[bf.cie] >= 0 THEN <<>>
                                             ELSE <<[t |-> "cie", id |-> bf.cie, off |-> off, len |-> ec.len]>>)
                                         \o <<[t |-> "fde", k |-> k, off |-> foff, len |-> ef.len, cie_off |-> cieOff]>>)
-Write(kind, set, fdes, le) ==
-    WriteFrom(kind, set, fdes, le, 1, [j \in DOMAIN set |-> -1], <<>>, <<>>)
+(* `pre` = bytes already present in the section writer before write_debug_frame /      *)
+(* write_eh_frame is called (entries then start at Len(pre); padding is relative to    *)
+(* the entry, never to the section position)                                           *)
+WriteP(kind, set, fdes, le, pre) ==
+    WriteFrom(kind, set, fdes, le, 1, [j \in DOMAIN set |-> -1], pre, <<>>)
+Write(kind, set, fdes, le) == WriteP(kind, set, fdes, le, <<>>)
 
 (*------------------------- meaning: reference rows ------------------------*)
 (* state = [cfa, rules (function register -> rule, only defined rules),      *)
